@@ -85,9 +85,11 @@ struct Obs {
 }
 #[cfg(not(verif_replay))]
 impl Obs {
-	fn new(rx: oneshot::Receiver<Result<()>>, visible: &Arc<AtomicU64>) -> Self {
-		unsafe {
-			oneshot::HORIZON_PROBE = Arc::as_ptr(visible);
+	fn new(rx: oneshot::Receiver<Result<()>>, visible: &Arc<AtomicU64>, probe: bool) -> Self {
+		if probe {
+			unsafe {
+				oneshot::HORIZON_PROBE = Arc::as_ptr(visible);
+			}
 		}
 		Obs { rx }
 	}
@@ -128,7 +130,7 @@ struct Obs {
 }
 #[cfg(verif_replay)]
 impl Obs {
-	fn new(rx: oneshot::Receiver<Result<()>>, visible: &Arc<AtomicU64>) -> Self {
+	fn new(rx: oneshot::Receiver<Result<()>>, visible: &Arc<AtomicU64>, _probe: bool) -> Self {
 		let w = Arc::new(HorizonWaker { visible: Arc::clone(visible), seen: AtomicU64::new(u64::MAX), order: AtomicU64::new(0) });
 		let mut o = Obs { rx, w, seen: None };
 		o.poll();
@@ -165,11 +167,22 @@ const K: usize = 3;
 /// exactly once, only when the horizon covers it, in WAL order.  A batch whose WAL write/apply
 /// failed (completed with Err before being marked applied) keeps its Err and does not block the queue.
 fn publish_exposes_applied_prefix(k: usize, head0: u32, order: [usize; K]) {
+	publish_exposes_applied_prefix_opt(k, head0, order, true)
+}
+
+/// `full` = horizon observed at completion time as well (k = 2); the k = 3 instances run without the
+/// completion-time probe (30 GB otherwise)
+fn publish_exposes_applied_prefix_opt(k: usize, head0: u32, order: [usize; K], full: bool) {
+	publish_exposes_applied_prefix_mask(k, head0, order, full, 0)
+}
+
+/// fails_mask = 0xff: which batches fail is symbolic; otherwise bit q says whether batch q fails (concrete)
+fn publish_exposes_applied_prefix_mask(k: usize, head0: u32, order: [usize; K], full: bool, fails_mask: u8) {
 	let visible0: u64 = kani::any();
 	kani::assume(visible0 <= 1000);
 	let pipe = mk_pipeline(visible0, head0);
 	let cnt: [u32; K] = kani::any();
-	let fails: [bool; K] = kani::any();
+	let fails: [bool; K] = if fails_mask == 0xff { kani::any() } else { [fails_mask & 1 != 0, fails_mask & 2 != 0, fails_mask & 4 != 0] };
 	let mut start = [0u64; K];
 	let mut end = [0u64; K];
 	let mut batches: [Option<Arc<CommitBatch>>; K] = [None, None, None];
@@ -185,7 +198,7 @@ fn publish_exposes_applied_prefix(k: usize, head0: u32, order: [usize; K]) {
 		next += cnt[i] as u64;
 		pipe.pending.enqueue(Arc::clone(&b));
 		batches[i] = Some(b);
-		obs[i] = Some(Obs::new(rx, &pipe.visible_seq_num));
+		obs[i] = Some(Obs::new(rx, &pipe.visible_seq_num, full));
 		i += 1;
 	}
 	let mut applied = [false; K];
@@ -230,7 +243,9 @@ fn publish_exposes_applied_prefix(k: usize, head0: u32, order: [usize; K]) {
 					assert!(ok, "successful batch completed with an error");
 					// commit() is resumed by this completion: a transaction it begins right away must
 					// already see the commit
-					assert!(obs[q].as_ref().unwrap().horizon_at_completion() >= end[q], "commit() released before the visibility horizon covered its batch");
+					if full {
+						assert!(obs[q].as_ref().unwrap().horizon_at_completion() >= end[q], "commit() released before the visibility horizon covered its batch");
+					}
 				}
 			} else if !fails[q] {
 				assert!(sends == 0, "commit() released before its batch is visible");
@@ -257,7 +272,7 @@ fn publish_exposes_applied_prefix(k: usize, head0: u32, order: [usize; K]) {
 	// queue drained: head == tail, every slot free again
 	let (h, t) = pipe.pending.unpack(pipe.pending.head_tail.load(Ordering::Acquire));
 	assert!(h == t && h == head0.wrapping_add(k as u32), "queue not drained");
-	kani::cover!(fails[0] && !fails[1], "first batch failed, second succeeded");
+	kani::cover!(cnt[0] == 4 && cnt[1] == 1, "a four-entry batch followed by a one-entry batch");
 	kani::cover!(applied[0] && last_visible == end[k - 1], "all published");
 	core::mem::forget(batches);
 	core::mem::forget(obs);
@@ -266,57 +281,106 @@ fn publish_exposes_applied_prefix(k: usize, head0: u32, order: [usize; K]) {
 
 #[kani::proof]
 #[kani::unwind(4)]
-fn c05_publish_applied_prefix_k2_o01() {
-	publish_exposes_applied_prefix(2, 0, [0, 1, 9]);
+fn c05_publish_applied_prefix_k2_o01_f0() {
+	publish_exposes_applied_prefix_mask(2, 0, [0, 1, 9], true, 0);
 }
 
 #[kani::proof]
 #[kani::unwind(4)]
-fn c05_publish_applied_prefix_k2_o10() {
-	publish_exposes_applied_prefix(2, 0, [1, 0, 9]);
+fn c05_publish_applied_prefix_k2_o01_f1() {
+	publish_exposes_applied_prefix_mask(2, 0, [0, 1, 9], true, 1);
+}
+
+#[kani::proof]
+#[kani::unwind(4)]
+fn c05_publish_applied_prefix_k2_o01_f2() {
+	publish_exposes_applied_prefix_mask(2, 0, [0, 1, 9], true, 2);
+}
+
+#[kani::proof]
+#[kani::unwind(4)]
+fn c05_publish_applied_prefix_k2_o01_f3() {
+	publish_exposes_applied_prefix_mask(2, 0, [0, 1, 9], true, 3);
+}
+
+#[kani::proof]
+#[kani::unwind(4)]
+fn c05_publish_applied_prefix_k2_o10_f0() {
+	publish_exposes_applied_prefix_mask(2, 0, [1, 0, 9], true, 0);
+}
+
+#[kani::proof]
+#[kani::unwind(4)]
+fn c05_publish_applied_prefix_k2_o10_f1() {
+	publish_exposes_applied_prefix_mask(2, 0, [1, 0, 9], true, 1);
+}
+
+#[kani::proof]
+#[kani::unwind(4)]
+fn c05_publish_applied_prefix_k2_o10_f2() {
+	publish_exposes_applied_prefix_mask(2, 0, [1, 0, 9], true, 2);
+}
+
+#[kani::proof]
+#[kani::unwind(4)]
+fn c05_publish_applied_prefix_k2_o10_f3() {
+	publish_exposes_applied_prefix_mask(2, 0, [1, 0, 9], true, 3);
 }
 
 /// ring position u32::MAX: head/tail wrap around 2^32 and the slot index wraps 7 -> 0
 #[kani::proof]
 #[kani::unwind(4)]
-fn c05_publish_applied_prefix_k2_o10_wrap() {
-	publish_exposes_applied_prefix(2, u32::MAX, [1, 0, 9]);
+fn c05_publish_applied_prefix_k2_o10_f1_wrap() {
+	publish_exposes_applied_prefix_mask(2, u32::MAX, [1, 0, 9], true, 1);
 }
 
 #[kani::proof]
 #[kani::unwind(5)]
 fn c05_publish_applied_prefix_k3_o012() {
-	publish_exposes_applied_prefix(3, 6, [0, 1, 2]);
+	publish_exposes_applied_prefix_opt(3, 6, [0, 1, 2], false);
 }
 
 #[kani::proof]
 #[kani::unwind(5)]
 fn c05_publish_applied_prefix_k3_o021() {
-	publish_exposes_applied_prefix(3, 6, [0, 2, 1]);
+	publish_exposes_applied_prefix_opt(3, 6, [0, 2, 1], false);
 }
 
 #[kani::proof]
 #[kani::unwind(5)]
 fn c05_publish_applied_prefix_k3_o102() {
-	publish_exposes_applied_prefix(3, 6, [1, 0, 2]);
+	publish_exposes_applied_prefix_opt(3, 6, [1, 0, 2], false);
 }
 
 #[kani::proof]
 #[kani::unwind(5)]
 fn c05_publish_applied_prefix_k3_o120() {
-	publish_exposes_applied_prefix(3, 6, [1, 2, 0]);
+	publish_exposes_applied_prefix_opt(3, 6, [1, 2, 0], false);
 }
 
 #[kani::proof]
 #[kani::unwind(5)]
 fn c05_publish_applied_prefix_k3_o201() {
-	publish_exposes_applied_prefix(3, 6, [2, 0, 1]);
+	publish_exposes_applied_prefix_opt(3, 6, [2, 0, 1], false);
 }
 
 #[kani::proof]
 #[kani::unwind(5)]
 fn c05_publish_applied_prefix_k3_o210() {
-	publish_exposes_applied_prefix(3, 6, [2, 1, 0]);
+	publish_exposes_applied_prefix_opt(3, 6, [2, 1, 0], false);
+}
+
+/// k = 3 with one failed batch (concrete position), applies finishing in reverse WAL order
+#[kani::proof]
+#[kani::unwind(5)]
+fn c05_publish_applied_prefix_k3_o210_first_fails() {
+	publish_exposes_applied_prefix_mask(3, 6, [2, 1, 0], false, 1);
+}
+
+#[kani::proof]
+#[kani::unwind(5)]
+fn c05_publish_applied_prefix_k3_o201_middle_fails() {
+	publish_exposes_applied_prefix_mask(3, 6, [2, 0, 1], false, 2);
 }
 
 /// C05-O2: pack/unpack are inverse and the ring is FIFO: a batch is dequeued only when applied and
